@@ -12,6 +12,8 @@ From TS Require Proofs.C15_GoItem Proofs.C15_GoFile.
 From TS Require Import Spec.C15RenderScPy.
 From TS Require Proofs.C15_ScalaItem.
 From TS Require Proofs.C15_PythonItem.
+From TS Require Import Spec.C15RenderKtSc.
+From TS Require Proofs.C15_KotlinFile.
 Import ListNotations.
 From TS Require Props.C15.
 
@@ -462,3 +464,35 @@ Goal forall (uc : unicode) (cfg : py_config),
     c15_contained C15py LCode (mark (c15_file_pieces C15py parts)) = true.
 Proof. exact Props.C15.C15_py_item_line_free. Qed.
 Print Assumptions Props.C15.C15_py_item_line_free.
+Goal forall (uc : unicode) (cfg : kt_config),
+  c15_plain C15kt (kt_prefix cfg) = true ->
+  c15_mappings_plain C15kt (kt_type_mappings cfg) = true ->
+  c15_plain C15kt (kt_package cfg) = true ->
+  c15_version_nested_ok (kt_version cfg) = true ->
+  forall pd text,
+  forallb (c15_item_strict C15kt Kotlin) (items_of pd) = true ->
+  kt_generate uc cfg pd = Ok text ->
+  exists items parts,
+    topsort (items_of pd) = Ok items /\ Permutation items (items_of pd) /\
+    text = text_of (c15_file_pieces C15kt parts) /\
+    docs_of (c15_file_pieces C15kt parts) = flat_map c15_item_docs_helpers_first items /\
+    c15_contained C15kt LCode (mark (c15_file_pieces C15kt parts)) =
+    forallb safe_kt (flat_map c15_item_docs_helpers_first items).
+Proof. exact Props.C15.C15_kt_file. Qed.
+Print Assumptions Props.C15.C15_kt_file.
+Goal forall (uc : unicode) (cfg : kt_config),
+  c15_plain C15kt (kt_prefix cfg) = true ->
+  c15_mappings_plain C15kt (kt_type_mappings cfg) = true ->
+  c15_plain C15kt (kt_package cfg) = true ->
+  c15_version_nested_ok (kt_version cfg) = true ->
+  forall pd text,
+  forallb (c15_item_strict C15kt Kotlin) (items_of pd) = true ->
+  Forall (fun it => Forall (fun d => safe_line eol_lf_cr d = true) (c15_item_docs it)) (items_of pd) ->
+  kt_generate uc cfg pd = Ok text ->
+  exists items parts,
+    topsort (items_of pd) = Ok items /\ Permutation items (items_of pd) /\
+    text = text_of (c15_file_pieces C15kt parts) /\
+    docs_of (c15_file_pieces C15kt parts) = flat_map c15_item_docs_helpers_first items /\
+    c15_contained C15kt LCode (mark (c15_file_pieces C15kt parts)) = true.
+Proof. exact Props.C15.C15_kt_file_line_free. Qed.
+Print Assumptions Props.C15.C15_kt_file_line_free.
